@@ -20,6 +20,24 @@ CHECKS = {
  "C11": ("emulator.System is probed black-box on all 2^24 addresses for reads and writes; TLC validates the recorded system page tables against the recorded real LoROM table (Agree) and MemMap.tla's SysMap is model-checked against its LoROM table.",
          "Trusted: TLC, the probe's decoding of backing array/index (self-checked by a reproduction pass).",
          "TLA+ spec (MemMap.tla SysMap) + TLC MC + TLC validation of black-box probe tables"),
+ "C01": ("Cpu65816.tla is an explicit TLA+ transcription of the WDC native-mode programming model (all 256 opcodes, 8/16-bit widths, wrap rules); every Step of BOTH real interpreters -- opcodes cycled 0..255 from boundary-biased states with junk in the non-authoritative register copies, top-of-memory states, decimal states, lock-step chains through pseudo-random and width-switch-rich programs -- is recorded as a self-contained event and judged by TLC against Step(). The open known finding dec_bcd is attributed behaviourally (the event must equal what the named deviation predicts).",
+         "Trusted: TLC, my transcription of the WDC model (contested corners left free: decimal V, invalid BCD, PC after WAI/STP). Sampling of the state space is seeded, not exhaustive; no TLC-exported program enumeration yet.",
+         "TLA+ spec (Cpu65816.tla + ISA.tla) + TLC trace validation of recorded Step events of both real interpreters"),
+ "C02": ("Every recorded event carries the outcome of both interpreters from the same state and memory; TLC checks Equiv (registers, flags, E, stop status, written memory, per-step cycles, running totals, panics) in native and emulation mode, binary and decimal, with pending IRQs, single steps and lock-step chains; where Cpu65816.tla defines the behaviour each side is also compared with the model.",
+         "Trusted: TLC. Observational equivalence is judged on the architectural projection, not on the raw duplicate register fields.",
+         "TLA+ trace specification (CpuTrace.tla Equiv) + TLC validation of lock-step events recorded from both real interpreters"),
+ "C08": ("The whole 16 MiB bus is mapped to a flat memory; single steps from top-of-memory-biased states (DBR=$FF, long operands near $FFFFFF, all index corners, E in {0,1}) and chains are executed on both interpreters; a recovered Go panic is an event TLC rejects, and in native mode the written addresses/values must be the model's wrapped ones.",
+         "Trusted: TLC; panics are the only way an address >= 2^24 can manifest (both bus tables have exactly 2^20 blocks).",
+         "TLA+ spec (Cpu65816.tla wrap rules) + TLC trace validation of recorded Step events"),
+ "C12": ("RunLoop.tla models System.RunUntil and is model-checked including Termination under weak fairness (depends on MinCycles >= 1); real RunUntil runs (random programs with spins, self-branches, block moves, STP, WDM; targets at/inside/outside instructions; budgets 0, 1, exact, short) are observed through OnPC callbacks on every address, a Logger and OnWDM and validated by TLC; every Step event of both interpreters (incl. pending IRQs, STP, pre-stopped CPUs) is checked for cycles >= 1, total += cycles and stop reporting.",
+         "Trusted: TLC. 'cycles >= 1 for every combination' is sampled over all opcodes x widths x E x random operands/alignments, not enumerated from the cycle tables.",
+         "TLA+ spec (RunLoop.tla) + TLC MC with liveness + TLC trace validation of real RunUntil runs and Step accounting events"),
+ "C14": ("Disasm.tla defines the content of a trace line from Cpu65816.tla's state; the lines printed by both real disassemblers before each recorded Step (all opcodes, widths, emulation mode, bank-end PCs, chains) are parsed and judged by TLC (location, bytes, mnemonic, normalised operand rendering, branch destination, registers, flags); every RunUntil scenario is run traced and untraced from the same state and TLC requires identical finals.",
+         "Trusted: TLC, the trace-line parser (regular expressions in the harness); rendering compared structurally.",
+         "TLA+ spec (Disasm.tla) + TLC trace validation of parsed real trace lines + traced/untraced pair runs"),
+ "C18": ("Instances.tla states NonInterference/SharedReadOnly/Independence; TLC enumerates all 1680 interleavings of 3 instances x 3 slots, which are executed deterministically on real Systems, cpualt CPUs, Emitters and ROMs (digest after every operation = digest when run alone), and 16-64 goroutines run the same instances freely with concurrent mapper/colour calls under the Go race detector; observations and race reports are validated by TLC.",
+         "Trusted: TLC, Go race detector as instrumentation. Schedules are enumerated at operation granularity only.",
+         "TLA+ spec (Instances.tla) + TLC enumeration of schedules replayed on real objects + TLC validation of observations under -race"),
  "C03": ("Emitter.tla's method table (written from the method names, opcodes resolved through the WDC matrix in ISA.tla) is checked by TLC (every method has an ISA opcode, emitted length = architectural length under the tracked widths) and every call recorded from the real emitter -- all 90 methods cycled with boundary/random operands under all four width states, plus random programs and TLC-exported behaviours -- is validated by TLC (bytes, Len, PC); both CPUs' disassemblers must decode each emitted instruction to the same mnemonic and length.",
          "Trusted: TLC, the WDC opcode matrix typed into tools/gen_isa.py. Operand values are sampled with boundary bias, not enumerated (2^24 operand sweep not built).",
          "TLA+ spec (Emitter.tla + ISA.tla) + TLC MC + TLC trace validation of recorded real calls + replay of TLC behaviours"),
